@@ -87,17 +87,29 @@ def _patch_variant(repo, variant):
         shutil.rmtree(tmp, ignore_errors=True)
 
 
+_CAT = {}
+
+
 def _dispatch(args):
     repo, variant = args
     if 'patch' in variant:
         return _patch_variant(repo, variant)
+    if 'edits' not in variant:
+        # edits are closures and cannot cross the process boundary: the worker rebuilds the catalogue and looks the variant up
+        from sa.selftest import catalogue
+        if repo not in _CAT:
+            _CAT[repo] = {v['id']: v for v in catalogue.variants(repo, discover=True)}
+        full = dict(_CAT[repo][variant['id']])
+        full['props'] = variant['props']
+        return _one((repo, full))
     return _one(args)
 
 
 def run(repo, variants, jobs=None):
     jobs = jobs or min(16, os.cpu_count() or 4)
+    slim = [{k: v for k, v in var.items() if k != 'edits'} for var in variants]
     with ProcessPoolExecutor(max_workers=jobs) as ex:
-        return list(ex.map(_dispatch, [(repo, v) for v in variants], chunksize=1))
+        return list(ex.map(_dispatch, [(repo, v) for v in slim], chunksize=1))
 
 
 def evaluate(variants, results):
